@@ -29,12 +29,50 @@ func c06Opts(rt *rapid.T, fallible bool) gen.Opts {
 // TestC06: custom functions and declared methods are used wherever their types occur.
 func TestC06(t *testing.T) {
 	s := vh.Begin(t, "C06")
+	if s.ReplayIn != "" && s.ReplayTag() == "prog" {
+		c03ReplayRandom(t, s)
+		return
+	}
 	if s.ReplayIn != "" {
 		runCaseReplay(t, s)
 		return
 	}
 	s.ProbeFindings(t, func(f *vh.Finding, path string) { runCaseReplay(t, s) })
 	values := s.Pick(60, 200)
+	// generation only: one declared method does not own a context that its custom functions may need
+	t.Run("context-unavailable", func(t *testing.T) {
+		rapid.Check(t, func(rt *rapid.T) {
+			for k := 0; k < 4; k++ {
+				o := c06Opts(rt, rapid.Bool().Draw(rt, "fallible"))
+				o.DropContext = true
+				o.UseUnderlying = rapid.Bool().Draw(rt, "underlying-neg")
+				b := gen.New(rt, o)
+				n := rapid.IntRange(1, 3).Draw(rt, "nmethods")
+				for i := 0; i < n; i++ {
+					b.StructMethod(fmt.Sprintf("M%d", i), min(o.MaxDepth, 3))
+				}
+				b.Conv.Settings.EnumOff = true
+				b.Finish()
+				c := progCase{Conv: b.Conv}
+				msg, ok := c03CheckProgram(s, c)
+				if !ok {
+					s.Infra(msg)
+					rt.Fatalf("%s", msg)
+				}
+				for l, cnt := range b.Labels {
+					if l == "defect:context-not-owned" || l == "func:context" || l == "extend:underlying" {
+						s.LabelN("ctxneg:"+l, cnt)
+					}
+				}
+				if b.Labels["defect:context-not-owned"] > 0 {
+					s.Nontrivial("ctxneg:"+progSummary(b.Conv), nil)
+				}
+				if msg != "" {
+					s.FailRapid(rt, "prog", c, "%s", msg)
+				}
+			}
+		})
+	})
 	rapid.Check(t, func(rt *rapid.T) {
 		o := c06Opts(rt, rapid.Bool().Draw(rt, "fallible"))
 		b := gen.New(rt, o)
